@@ -311,8 +311,7 @@ def run(tier, seed):
                 groups.setdefault(json.dumps(x["shape"]), []).append(x)
         glist = list(groups.values())
         rnd.shuffle(glist)
-        if not thorough:
-            glist = glist[:600]
+        glist = glist[:8000 if thorough else 600]
         for g in glist:
             rnd.shuffle(g)
             for b in batches(g, bsize):
@@ -345,8 +344,8 @@ def run(tier, seed):
         return out
 
     all_pairs, all_triples = fam["pairs"], fam["triples"]
-    pairs = stratified(all_pairs, 40000 if thorough else 2400)
-    triples = stratified(all_triples, 15000 if thorough else 600)
+    pairs = stratified(all_pairs, 25000 if thorough else 2400)
+    triples = stratified(all_triples, 8000 if thorough else 600)
     for c in pairs + triples:
         add_path(c["path"], c["sep"], c["noun"], c["s"], render(c["path"][0], c["s"], num=len(cases) % 2 == 0), "flat")
 
